@@ -385,9 +385,9 @@ func Recheck(root *ggql.Root) (probs []Problem, uses, types int) {
 				default:
 					r.add("R2", "schema."+f.Name(), "unknown operation root")
 				}
-				if kindOf(f.Type) != "object" {
-					r.add("R3", "schema."+f.Name(), "operation root %s is a %s", typeString(f.Type), kindOf(f.Type))
-				}
+				// the rule ggql enforces for an operation root is that of any field: an output type
+				// (that it be a plain object is not among the rules of the property)
+				r.checkTypeExpr("schema."+f.Name(), f.Type, false)
 			}
 		case *ggql.Object:
 			r.checkFields(name, tt.Fields(), false)
